@@ -374,8 +374,10 @@ func (u *Unit) binop(env *specEnv, op token.Token, a, b Val) Val {
 		return boolVal(tOr(a.S, b.S))
 	case token.EQL, token.NEQ:
 		var t Term
-		if a.Kind == KSlice || b.Kind == KSlice {
-			// only comparison with nil is legal
+		if a.Kind == KSlice && b.Kind == KSlice {
+			// spec-level slice equality: same window of the same array (nil == nil)
+			t = tAnd(tEq(a.Arr, b.Arr), tEq(a.Off, b.Off), tEq(a.Len, b.Len))
+		} else if a.Kind == KSlice || b.Kind == KSlice {
 			s := a
 			if b.Kind == KSlice {
 				s = b
@@ -409,8 +411,14 @@ func (u *Unit) binop(env *specEnv, op token.Token, a, b Val) Val {
 		if a.Sort == SReal {
 			return scalar("(/ "+a.S+" "+b.S+")", SReal, T)
 		}
+		if n, ok := isIntLit(b.S); ok && n > 0 && isUnsignedT(a.T) {
+			return scalar("(div "+a.S+" "+b.S+")", SInt, T)
+		}
 		return scalar(goDiv(a.S, b.S), SInt, T)
 	case token.REM:
+		if n, ok := isIntLit(b.S); ok && n > 0 && isUnsignedT(a.T) {
+			return scalar("(mod "+a.S+" "+b.S+")", SInt, T)
+		}
 		return scalar(goMod(a.S, b.S), SInt, T)
 	case token.AND:
 		if m, ok := isIntLit(b.S); ok && isMask(m) {
@@ -435,6 +443,14 @@ func (u *Unit) binop(env *specEnv, op token.Token, a, b Val) Val {
 		env.fail("unsupported binary operator %s", op)
 	}
 	return Val{Kind: KScalar, Sort: "?"}
+}
+
+func isUnsignedT(T types.Type) bool {
+	if T == nil {
+		return false
+	}
+	b, ok := T.Underlying().(*types.Basic)
+	return ok && b.Info()&types.IsUnsigned != 0
 }
 
 func isUntyped(T types.Type) bool {
@@ -557,7 +573,11 @@ func (u *Unit) fieldRead(st *State, owner types.Type, f *types.Var, ref Term) Va
 	if isStructVal(ft) || isArrayT(ft) {
 		fn := smtName("sub$" + typeKey(owner) + "." + f.Name())
 		u.decls.declFun(fn, []string{SInt}, SInt)
-		return scalar(tApp(fn, ref), SInt, ft)
+		u.decls.declFun("owner", []string{SInt}, SInt)
+		sub := tApp(fn, ref)
+		// embedded objects live in the negative reference space and know their owner
+		u.assumeOnce(st, tAnd(tLt(sub, "0"), tEq(tApp("owner", sub), ref)))
+		return scalar(sub, SInt, ft)
 	}
 	return u.loadAt(st, fieldHeap(owner, f.Name()), ft, ref)
 }
@@ -645,6 +665,7 @@ func (u *Unit) specCall(env *specEnv, x *ast.CallExpr) Val {
 		}
 		ne := env
 		var bs []string
+		var bvs []string
 		var guards []Term
 		for _, p := range ps {
 			sort, T, isSl := env.specType(p.Type)
@@ -654,6 +675,7 @@ func (u *Unit) specCall(env *specEnv, x *ast.CallExpr) Val {
 			env.depth++
 			bn := fmt.Sprintf("%s!q%d", p.Name, env.u.nextQ())
 			bs = append(bs, "("+bn+" "+sort+")")
+			bvs = append(bvs, bn)
 			v := scalar(bn, sort, T)
 			ne = ne.with(p.Name, v)
 			_ = guards
@@ -663,7 +685,18 @@ func (u *Unit) specCall(env *specEnv, x *ast.CallExpr) Val {
 		if fname == "__exists" {
 			q = "exists"
 		}
-		return boolVal("(" + q + " (" + strings.Join(bs, " ") + ") " + body.S + ")")
+		bt := body.S
+		if len(bvs) == 1 {
+			// explicit triggers: every array read whose index is exactly the bound variable
+			if pats := selectPatterns(bt, bvs[0], nil); len(pats) > 0 && len(pats) <= 4 {
+				var ps []string
+				for _, p := range pats {
+					ps = append(ps, ":pattern ("+p+")")
+				}
+				bt = "(! " + bt + " " + strings.Join(ps, " ") + ")"
+			}
+		}
+		return boolVal("(" + q + " (" + strings.Join(bs, " ") + ") " + bt + ")")
 	case "old":
 		if env.old == nil {
 			env.fail("old() not available here")
@@ -724,6 +757,17 @@ func (u *Unit) specCall(env *specEnv, x *ast.CallExpr) Val {
 		return intVal(u.typeID(T))
 	case "frontier":
 		return intVal(env.st.frontier)
+	case "fresh":
+		// fresh(x): x was allocated during the call (not before the pre-state)
+		if env.old == nil {
+			env.fail("fresh() needs a pre-state")
+		}
+		v := u.specEval(env, x.Args[0])
+		ref := v.S
+		if v.Kind == KSlice {
+			ref = v.Arr
+		}
+		return boolVal(tAnd(tLe(env.old.frontier, ref), tLt(ref, env.st.frontier)))
 	case "now":
 		return intVal(u.clockTerm(env.st))
 	}
